@@ -1222,9 +1222,9 @@ PROPS = {
 # Lean obligations
 # ------------------------------------------------------------------------------------------------
 BRIDGE_GROUPS = {
-    "arith": ["max_eq", "min_eq", "ceilMul_eq", "floorMul_eq", "untranslatable_none"],
+    "arith": ["max_eq", "min_eq", "ceilMul_eq", "floorMul_eq", "err_offset", "untranslatable_none"],
     "iter": ["posNext_eq", "posList_step", "foldSize_step", "foldSize_last", "minSizeL_step", "minSizeL_last", "typeIter_minSize_step", "typeIter_minSize_last",
-             "alignL_step", "foldSizeDyn_step", "foldSizeDyn_last", "iter_untranslatable_none"],
+             "alignL_step", "foldSizeDyn_step", "foldSizeDyn_last", "validateAll_step", "validateAll_last", "walkAll_step", "iter_untranslatable_none"],
     "vec": ["vec_align", "vec_minSize", "vec_size", "vec_slots", "vec_viewLen", "vec_untranslatable_none"],
     "str": ["str_align", "str_minSize", "str_size", "str_viewLen", "str_untranslatable_none"],
     "flex": ["flex_align", "flex_minSize", "flex_viewLen", "flex_validate_floor", "flex_size_term", "flex_size_last", "flex_untranslatable_none"],
@@ -1234,13 +1234,14 @@ BRIDGE_GROUPS = {
     "portable": ["portable_table_ok"],
     # decision points: condition, error kind and error position of each refusal, extracted from the source
     # (split by what the decision point belongs to, so that a change to an emplacer's test does not touch the validation properties)
-    "guards": ["guard_checkAlignMin", "guard_vecValidate", "guard_strValidate", "guard_flexSlotAlign", "guard_flexSlot", "guard_cenum", "guard_uenum", "guards_untranslatable_none"],
-    "guards_emplace": ["guard_checkAlignMin", "guard_vecFromArray", "guard_flexFillRoom", "guard_flexFillSeal", "guards_untranslatable_none"],
+    "guards": ["guard_checkAlignMin", "guard_iterCheck", "guard_vecValidate", "vec_elems_step", "vec_elems_visited", "guard_strValidate", "str_utf8_pos", "guard_flexSlotAlign", "guard_flexSlot",
+               "flex_item_pos_last", "flex_item_pos_inner", "flex_slot_read_pos", "guard_cenum", "guard_uenum", "guards_untranslatable_none"],
+    "guards_emplace": ["guard_checkAlignMin", "guard_iterCheck", "guard_initWalker", "guard_vecFromArray", "guard_flexFillRoom", "guard_flexFillItem", "guard_flexFillSeal", "guards_untranslatable_none"],
     "guards_push": ["guard_flexPushSeal", "guard_flexPushTail", "guard_flexTruncate", "guard_flexPop", "guards_untranslatable_none"],
     # the IO layer: window arithmetic of `Buffer`, the capacities the constructors allocate, and the decision points of
     # `write_all` / `WriteAll::poll` / `read` / `poll_read` / `recv` (conditions only; FV/BridgeIo.lean)
     "io_send": ["io_write_all_step", "aio_write_all_step", "aio_write_all_flush", "io_capacities", "io_untranslatable_none"],
-    "io_recv": ["io_read_step", "io_make_contiguous", "io_skip", "io_advance", "aio_read_tests", "io_recv_closed", "aio_recv_closed", "io_capacities", "io_untranslatable_none"],
+    "io_recv": ["io_read_step", "io_make_contiguous", "io_skip", "io_advance", "aio_read_tests", "io_recv_closed", "aio_recv_closed", "io_recv_dispatch", "aio_recv_dispatch", "io_capacities", "io_untranslatable_none"],
 }
 LAYOUT = ["arith", "iter", "vec", "str", "flex", "macro", "guards"]
 EMPLACE = LAYOUT + ["guards_emplace", "flex_fill"]
